@@ -121,6 +121,49 @@ func structLiteral(x *ssa.Alloc, d int, seen map[ssa.Value]bool) string {
 	return "&" + shortType(pt.Elem()) + "{" + strings.Join(parts, ", ") + "}"
 }
 
+// arrayLiteral renders `[a, b, …]` for an Alloc of array type written once per constant index (the
+// backing array of a variadic call or of a slice literal), else "".
+func arrayLiteral(x *ssa.Alloc, d int, seen map[ssa.Value]bool) string {
+	pt, ok := x.Type().Underlying().(*types.Pointer)
+	if !ok {
+		return ""
+	}
+	at, ok := pt.Elem().Underlying().(*types.Array)
+	if !ok || x.Parent() == nil || at.Len() > 12 {
+		return ""
+	}
+	vals := map[string]string{}
+	for _, b := range x.Parent().Blocks {
+		for _, in := range b.Instrs {
+			s, ok := in.(*ssa.Store)
+			if !ok {
+				continue
+			}
+			ia, ok := s.Addr.(*ssa.IndexAddr)
+			if !ok || ia.X != ssa.Value(x) {
+				continue
+			}
+			c, ok := ia.Index.(*ssa.Const)
+			if !ok {
+				return ""
+			}
+			k := fmt.Sprintf("%02s", core.Key(c))
+			if _, dup := vals[k]; dup {
+				return ""
+			}
+			vals[k] = argTextD(s.Val, d+2, seen)
+		}
+	}
+	if len(vals) == 0 {
+		return ""
+	}
+	var parts []string
+	for _, k := range sortedKeys(vals) {
+		parts = append(parts, vals[k])
+	}
+	return "[" + strings.Join(parts, ", ") + "]"
+}
+
 func argTextD(v ssa.Value, d int, seen map[ssa.Value]bool) string {
 	if v == nil {
 		return "<nil>"
@@ -207,6 +250,11 @@ func argTextD(v ssa.Value, d int, seen map[ssa.Value]bool) string {
 				return lit
 			}
 		}
+		if d <= 2 {
+			if lit := arrayLiteral(x, d, seen); lit != "" {
+				return lit
+			}
+		}
 		return "new(" + shortType(x.Type().(*types.Pointer).Elem()) + ")"
 	case *ssa.MakeMap:
 		return "make(" + shortType(x.Type()) + ")"
@@ -249,14 +297,14 @@ func WiringRows(fn *ssa.Function, want func(callee string) bool) []string {
 				}
 			} else {
 				std := false
-				for _, p := range []string{"strings.", "strconv.", "regexp.", "net.", "net/url.", "path.", "sort."} {
+				for _, p := range []string{"strings.", "strconv.", "regexp.", "net.", "net/url.", "path.", "sort.", "fmt.Sprintf", "fmt.Sprint", "reflect.DeepEqual", "os.", "time."} {
 					if strings.HasPrefix(full, p) || strings.HasPrefix(full, "(*"+p) || strings.HasPrefix(full, "("+p) {
 						std = true
 					}
 				}
 				if std {
 					// pure helpers of the standard library: their operands decide conditions and keys
-				} else if strings.HasPrefix(full, "builtin:") || strings.Contains(full, "Logger") || !(cc.IsInvoke() && strings.Contains(cc.Value.Type().String(), core.Module) || strings.Contains(full, "/") && !strings.Contains(full, "k8s.io") && !strings.Contains(full, "sigs.k8s") && strings.Contains(core.CalleeName(cc), "converters/") || strings.Contains(core.CalleeName(cc), "haproxy/") || strings.Contains(core.CalleeName(cc), "utils")) {
+				} else if strings.HasPrefix(full, "builtin:") || strings.Contains(full, "Logger") || !(cc.IsInvoke() && strings.Contains(cc.Value.Type().String(), core.Module) || strings.Contains(full, "/") && !strings.Contains(full, "k8s.io") && !strings.Contains(full, "sigs.k8s") && strings.Contains(core.CalleeName(cc), "converters/") || strings.Contains(core.CalleeName(cc), "haproxy/") || strings.Contains(core.CalleeName(cc), "haproxy.") || strings.Contains(core.CalleeName(cc), "acme.") || strings.Contains(core.CalleeName(cc), "utils")) {
 					continue
 				}
 			}
@@ -272,7 +320,7 @@ func WiringRows(fn *ssa.Function, want func(callee string) bool) []string {
 }
 
 // wiringScope lists the packages whose functions are in the generated table.
-var wiringScope = []string{"converters", "converters/ingress", "converters/gateway", "converters/utils", "converters/configmap", "converters/ingress/annotations"}
+var wiringScope = []string{"converters", "converters/ingress", "converters/gateway", "converters/utils", "converters/configmap", "converters/ingress/annotations", "haproxy", "haproxy/types", "haproxy/socket", "haproxy/template", "acme", "utils/workqueue"}
 
 // WiringAll renders the table of the current tree (used by `hapverif genwiring`).
 func WiringAll(env *core.Env) map[string][]string {
@@ -356,6 +404,10 @@ var wiringGroups = []wiringGroup{
 	{[]string{"C18", "C09"}, "external authentication", []string{"converters/ingress/annotations", "converters/ingress"},
 		withStd(set("setAuthExternal", "AcquireAuthBackend", "ParseURL", "GetService", "FindServicePort", "ExternalNameLookup", "buildBackendAuthExternal", "buildHostAuthExternal", "buildBackendOAuth", "buildGlobalAuthProxy", "FindBackend", "AcquireBackend", "Get", "findAuthProxy", "AcquireAuthProxy"[0:0]+"Acquire")),
 		"where the authentication request is sent"},
+	{[]string{"C05", "C02", "C11", "C12", "C04", "C07"}, "model, updater and writers", []string{"haproxy", "haproxy/types", "haproxy/socket", "haproxy/template"}, nil,
+		"every call inside pkg/haproxy: what the dynamic updater sends to the socket (command strings are built with fmt.Sprintf), what the writers hand to the templates, what the containers index by"},
+	{[]string{"C17"}, "acme signer", []string{"acme"}, nil, "every call of the signer and the client"},
+	{[]string{"C13", "C12"}, "queues", []string{"utils/workqueue"}, nil, "every call of the work queue and the limiters"},
 	{[]string{"C19"}, "snippets", []string{"converters/ingress/annotations"},
 		set("firstToken", "LineToSlice", "Split", "buildBackendCustomConfig"),
 		"what the keyword filter is given"},
